@@ -136,7 +136,7 @@ FaceStat(g, O, k, d) ==
               ELSE IF M * nu < -den \/ M * nv < -den \/ M * nw < -den THEN "miss"
               ELSE IF M * nt >= den /\ M * nu >= den /\ M * nv >= den /\ M * nw >= den THEN "hit"
               ELSE "deg" IN
-    [st |-> st, nt |-> nt, den |-> den]
+    [st |-> st, nt |-> nt, den |-> den, inplane |-> (D0 = 0 /\ sn = 0)]
 
 RECURSIVE Stats(_, _, _, _, _)
 Stats(G, n, O, k, d) == IF n = 0 THEN <<>> ELSE Append(Stats(G, n - 1, O, k, d), FaceStat(G[n], O, k, d))
@@ -180,10 +180,14 @@ HitFaces(L) == {L[j].f + 1 : j \in 1..Len(L)}
 \*   locm / loc1   intersects_location(multiple_hits = True / False) for this ray
 \*   idm / id1     intersects_id(multiple_hits = True / False): faces
 \*   first         intersects_first (-1: none)      any   intersects_any
+\* Named deviation CoplanarRayPhantomHit: a first-hit query names a triangle whose supporting plane
+\* contains the ray although the ray is clear of the triangle (it is not degenerate) - seen with the
+\* float32 embree engine; kept apart so that the harness can attribute it to a known finding.
 EngClause(G, c, v, e) ==
     LET O == c.o  k == c.k  d == c.d  H == v.hits
         s1 == HitsSound(G, O, k, d, e.locm)
-        s2 == HitsSound(G, O, k, d, e.loc1) IN
+        s2 == HitsSound(G, O, k, d, e.loc1)
+        phantom(f) == f >= 0 /\ f < Len(G) /\ v.fs[f + 1].inplane IN
     IF s1 # "ok" THEN "multi:" \o s1
     ELSE IF ~(H \subseteq HitFaces(e.locm)) THEN "multi:crossed_triangle_missed"
     ELSE IF Len(e.locm) # Cardinality(H) THEN "multi:hit_count_differs_from_crossings"
@@ -194,8 +198,11 @@ EngClause(G, c, v, e) ==
     ELSE IF H # {} /\ e.loc1[1].f + 1 # Nearest(v) THEN "first:hit_is_not_the_nearest"
     ELSE IF Plus1(e.idm) # H \/ Len(e.idm) # Cardinality(H) THEN "intersects_id:faces_differ_from_crossings"
     ELSE IF Plus1(e.id1) # (IF H = {} THEN {} ELSE {Nearest(v)}) \/ Len(e.id1) > 1
-         THEN "intersects_id:first_is_not_the_nearest"
-    ELSE IF e.first # (IF H = {} THEN -1 ELSE Nearest(v) - 1) THEN "intersects_first:not_the_nearest"
+         THEN (IF Len(e.id1) = 1 /\ phantom(e.id1[1]) THEN "intersects_id:phantom_hit_coplanar_triangle"
+               ELSE "intersects_id:first_is_not_the_nearest")
+    ELSE IF e.first # (IF H = {} THEN -1 ELSE Nearest(v) - 1)
+         THEN (IF phantom(e.first) THEN "intersects_first:phantom_hit_coplanar_triangle"
+               ELSE "intersects_first:not_the_nearest")
     ELSE IF e.any # (H # {}) THEN "intersects_any:wrong"
     ELSE "ok"
 
